@@ -6,6 +6,16 @@ answer, model, SMT query) is printed and the exit status is 1: there is no execu
 import json, os, subprocess, sys, tempfile, shutil
 prop, path = sys.argv[1], sys.argv[2]
 text = open(path).read()
+if "\nbounded-single: " in text:
+    single = text.split("\nbounded-single: ", 1)[1].split("\n", 1)[0]
+    print(text[:3000])
+    r = subprocess.run([sys.executable, os.path.join(os.path.dirname(os.path.abspath(__file__)), "bounded.py"), prop, "quick", "--single", single], capture_output=True, text=True)
+    print(r.stdout[-3000:])
+    if r.returncode != 0 or "KNOWN-FINDING" in r.stdout:
+        print(f"VIOLATION property={prop} replay={path}" if r.returncode != 0 else "the recorded input is a listed known finding on the current tree")
+        sys.exit(1 if r.returncode != 0 else 0)
+    print("the recorded input no longer fails on the current tree")
+    sys.exit(0)
 marker = "--- go test ("
 if marker not in text:
     print(text[:6000])
